@@ -940,3 +940,79 @@ Proof.
     pose proof (chunk_offset_step cs ci c Ec). pose proof (chunk_offset_mono cs (S ci) ci' ltac:(lia)). lia. }
   pose proof (count_nl_firstn_mono (input_of cs) _ _ H). lia.
 Qed.
+
+(* ------------------------------------------------------------------ a position is reported *)
+
+(* a chunk that ends the loop: ReadMultiline returned "", -1 (EOF) *)
+Definition stops (d : chunk) : Prop := c_first d < 0 /\ c_src d = [].
+
+Lemma repl_loop_has_rec : forall cs st name ci0 st' recs j c,
+  repl_loop st name cs ci0 = Some (st', recs) ->
+  nth_error cs j = Some c -> 0 <= c_first c -> all_space (c_src c) = false ->
+  (forall i d, (i < j)%nat -> nth_error cs i = Some d -> ~ stops d) ->
+  exists r, In r recs /\ e_chunk r = (ci0 + j)%nat.
+Proof.
+  induction cs as [|d cs IH]; intros st name ci0 st' recs j c E Ec Hf Hs Hn; [destruct j; discriminate|].
+  simpl in E. destruct j as [|j]; simpl in Ec.
+  - inversion Ec; subst d. destruct (Z.ltb_spec (c_first c) 0); [lia|].
+    unfold read_step in E. destruct (Z.ltb_spec (c_first c) 0); [lia|].
+    unfold parse_eval_print in E. rewrite Hs in E.
+    destruct (parse_bytes st name (c_src c)) as [[st1 idx]|]; [|discriminate].
+    destruct (repl_loop (inc_line st1 (c_src c)) name cs (S ci0)) as [[st3 recs3]|]; [|discriminate].
+    inversion E; subst. eexists. split; [left; reflexivity|]. simpl. lia.
+  - assert (Hn' : forall i d0, (i < j)%nat -> nth_error cs i = Some d0 -> ~ stops d0)
+      by (intros i d0 Hi Ei; apply (Hn (S i)); [lia|exact Ei]).
+    destruct (Z.ltb_spec (c_first d) 0) as [Hd|Hd].
+    + destruct (c_src d) as [|b0 s0] eqn:Es.
+      * exfalso. apply (Hn 0%nat d); [lia|reflexivity|split; auto].
+      * destruct (IH _ _ _ _ _ _ _ E Ec Hf Hs Hn') as (r & Hin & He). exists r. split; auto. lia.
+    + destruct (parse_eval_print (read_step st d) name (c_src d)) as [[st2 r2]|]; [|discriminate].
+      destruct (repl_loop st2 name cs (S ci0)) as [[st3 recs3]|] eqn:El; [|discriminate].
+      inversion E; subst.
+      destruct (IH _ _ _ _ _ _ _ El Ec Hf Hs Hn') as (r & Hin & He). exists r. split; [|lia].
+      destruct r2; [right|]; exact Hin.
+Qed.
+
+Lemma source_has_rec st m name cs st' recs ci c :
+  run_source st m name cs = Some (st', recs) ->
+  (m = Repl \/ (1 <= ci)%nat) ->
+  nth_error cs ci = Some c -> 0 <= c_first c -> all_space (c_src c) = false ->
+  (forall i d, (i < ci)%nat -> nth_error cs i = Some d -> ~ stops d) ->
+  exists r, In r recs /\ e_chunk r = ci.
+Proof.
+  intros E Hm Ec Hf Hs Hn. destruct m; simpl in E.
+  - destruct Hm as [Hm|Hm]; [discriminate|]. unfold eval_reader in E.
+    destruct cs as [|c0 cs]; [destruct ci; discriminate|].
+    destruct ci as [|ci]; [lia|]. simpl in Ec.
+    destruct (0 <? c_first c0);
+    (match type of E with context [parse_eval_print ?a ?b ?d] => destruct (parse_eval_print a b d) as [[st2 r2]|]; [|discriminate] end;
+     destruct (repl_loop st2 name cs 1) as [[st3 recs3]|] eqn:El; [|discriminate];
+     inversion E; subst;
+     destruct (repl_loop_has_rec _ _ _ _ _ _ _ _ El Ec Hf Hs) as (r & Hin & He);
+     [intros i d Hi Ei; apply (Hn (S i)); [lia|exact Ei]
+     |exists r; split; [destruct r2; [right|]; exact Hin|lia]]).
+  - destruct (repl_loop_has_rec _ _ _ _ _ _ _ _ E Ec Hf Hs Hn) as (r & Hin & He). exists r. split; auto.
+Qed.
+
+(* a position is reported for every byte at or after firstToken of a chunk that is evaluated *)
+Lemma report_defined st m name cs st' recs ci k c :
+  reachable st -> run_source st m name cs = Some (st', recs) ->
+  (m = Repl \/ (1 <= ci)%nat) ->
+  nth_error cs ci = Some c -> 0 <= c_first c -> all_space (c_src c) = false ->
+  (forall i d, (i < ci)%nat -> nth_error cs i = Some d -> ~ stops d) ->
+  c_first c <= Z.of_nat k -> (k < length (c_src c))%nat ->
+  exists pos, report st' recs ci k = Some pos.
+Proof.
+  intros R E Hm Ec Hf Hs Hn Hk1 Hk2.
+  destruct (source_has_rec _ _ _ _ _ _ _ _ E Hm Ec Hf Hs Hn) as (r0 & Hin0 & He0).
+  destruct (run_source_spec _ _ _ _ _ _ (reachable_inv _ R) E) as (I' & F).
+  unfold report, find_rec.
+  destruct (find (fun r => Nat.eqb (e_chunk r) ci) recs) as [r|] eqn:Efind.
+  - apply find_some in Efind. destruct Efind as (Hin & Heq). apply Nat.eqb_eq in Heq.
+    rewrite Forall_forall in F. destruct (F r Hin) as (j & c' & f & str & lf & E1 & E2 & E3 & E4 & H).
+    assert (j = ci) by lia. subst j. assert (c' = c) by congruence. subst c'.
+    rewrite E3. destruct (H k Hk1 Hk2) as (A1 & A2 & A3 & A4).
+    destruct (Nat.ltb_spec k (e_delta r)); [lia|].
+    destruct (parsed_position _ _ _ _ _ _ (k - e_delta r) I' E3 E4 A2) as (s' & Ep). rewrite Ep. eauto.
+  - exfalso. pose proof (find_none _ _ Efind r0 Hin0) as Hx. simpl in Hx. apply Nat.eqb_neq in Hx. lia.
+Qed.
